@@ -1,6 +1,7 @@
 package sym
 
 import (
+	"encoding/base64"
 	"fmt"
 	"go/types"
 	"math"
@@ -41,6 +42,23 @@ type StatusObj struct {
 	Msg  string
 }
 
+// MarshalledMsg stands for the wire bytes of a message (page-token codec model).
+type MarshalledMsg struct{ M *PRMsg }
+
+type tokenEntry struct {
+	tok *smt.Term
+	mm  *MarshalledMsg
+}
+
+func (ex *Exec) pageTokenInfo() *pbMsgInfo {
+	p := ex.E.Prog.ImportedPackage("github.com/smart-core-os/sc-api/go/types")
+	if p == nil || p.Type("PageToken") == nil {
+		return nil
+	}
+	n, _ := p.Type("PageToken").Type().(*types.Named)
+	return ex.E.msgInfo(n)
+}
+
 // RngObj is an opaque random source.
 type RngObj struct{}
 
@@ -58,7 +76,7 @@ type CtxObj struct {
 
 func isNativeObj(v Value) bool {
 	switch v.(type) {
-	case *ErrObj, *StatusObj, *CtxObj, *PRMsg, *PRField, *PRList, *PRMap, *PRFields, *PRMsgDesc, *PREnum, *ListStub, *PRVal, *RngObj:
+	case *ErrObj, *StatusObj, *CtxObj, *PRMsg, *PRField, *PRList, *PRMap, *PRFields, *PRMsgDesc, *PREnum, *ListStub, *PRVal, *RngObj, *MarshalledMsg:
 		return true
 	}
 	return false
@@ -534,6 +552,21 @@ func init() {
 	reg("math/rand.NewSource", func(ex *Exec, g *G, fn *ssa.Function, args []Value, done func(Value)) {
 		done(IfaceV{V: &RngObj{}})
 	})
+	reg("math/rand.Int63|math/rand.Int|math/rand.Uint64|(*math/rand.Rand).Int63|(*math/rand.Rand).Int|(*math/rand.Rand).Uint64", func(ex *Exec, g *G, fn *ssa.Function, args []Value, done func(Value)) {
+		v := ex.input("rand", "int64", smt.BV(64))
+		if fn.Name() != "Uint64" {
+			ex.assume(ex.B.Sle(ex.B.BVC(0, 64), v))
+		}
+		done(v)
+	})
+	reg("math/rand.Int31|math/rand.Int31n|math/rand.Intn|(*math/rand.Rand).Intn|(*math/rand.Rand).Int31n", func(ex *Exec, g *G, fn *ssa.Function, args []Value, done func(Value)) {
+		ex.unsupported("math/rand bounded integers")
+	})
+	reg("math/rand.Float32|(*math/rand.Rand).Float32", func(ex *Exec, g *G, fn *ssa.Function, args []Value, done func(Value)) {
+		f := ex.input("randf", "float32", smt.F32)
+		ex.assume(ex.B.And(ex.B.FCmp(smt.OFLe, ex.B.F32C(0), f), ex.B.FCmp(smt.OFLt, f, ex.B.F32C(1))))
+		done(f)
+	})
 	reg("math/rand.New", func(ex *Exec, g *G, fn *ssa.Function, args []Value, done func(Value)) {
 		t := fn.Signature.Results().At(0).Type().(*types.Pointer).Elem()
 		l := &Loc{T: t, V: &RngObj{}}
@@ -552,7 +585,92 @@ func init() {
 		}
 		done(TupleV{ex.intC(sl.Len), IfaceV{}})
 	})
+	// ---- page-token codec: proto.Marshal/Unmarshal + base64 as an inverse pair over a tagged ordinal ----
+	reg("google.golang.org/protobuf/proto.Marshal", func(ex *Exec, g *G, fn *ssa.Function, args []Value, done func(Value)) {
+		m, ok := ex.prMsgOf(args[0])
+		if !ok || m.L == nil {
+			ex.unsupported("proto.Marshal of a non-message / nil message")
+		}
+		done(TupleV{&MarshalledMsg{M: ex.pbCloneMsg(m)}, IfaceV{}})
+	})
+	reg("google.golang.org/protobuf/proto.Unmarshal", func(ex *Exec, g *G, fn *ssa.Function, args []Value, done func(Value)) {
+		mm, ok := args[0].(*MarshalledMsg)
+		if !ok {
+			ex.unsupported("proto.Unmarshal of bytes that do not come from the modelled codec")
+		}
+		dst, ok2 := ex.prMsgOf(args[1])
+		if !ok2 || dst.Info != mm.M.Info {
+			done(ex.errIface(&ErrObj{Kind: "errors", Msg: "proto: cannot parse invalid wire-format data"}))
+			return
+		}
+		ex.pbReset(dst)
+		ex.guardPB(g, func() { ex.pbMerge(dst, mm.M) })
+		done(IfaceV{})
+	})
+	reg("(*encoding/base64.Encoding).DecodeString", func(ex *Exec, g *G, fn *ssa.Function, args []Value, done func(Value)) {
+		t := termOf(args[1])
+		B := ex.B
+		bad := func() { done(TupleV{SliceV{}, ex.errIface(&ErrObj{Kind: "errors", Msg: "illegal base64 data"})}) }
+		if !isOrd(t) {
+			sv, okc := concStr(t)
+			if !okc {
+				ex.unsupported("base64 decode of a symbolic non-ordinal string")
+			}
+			if _, err := base64.StdEncoding.DecodeString(sv); err != nil {
+				bad()
+				return
+			}
+			ex.unsupported("base64 decode of a well-formed constant (not produced by the modelled codec)")
+		}
+		// a token produced by the modelled EncodeToString has tag bit 60 set and carries the key in the low bits
+		tag := B.Extract(t, 60, 60)
+		if !ex.branch(B.Eq(tag, B.BVC(1, 1))) {
+			bad()
+			return
+		}
+		key := B.BAnd(t, B.BVC((uint64(1)<<59)-1, OrdW))
+		for _, e := range ex.tokenTable {
+			if e.tok == t {
+				done(TupleV{e.mm, IfaceV{}})
+				return
+			}
+		}
+		// a token not produced in this run: it decodes to a page token naming an arbitrary key
+		info := ex.pageTokenInfo()
+		if info == nil {
+			bad()
+			return
+		}
+		m := ex.newMsg(info)
+		f := info.byName["last_resource_name"]
+		ex.pbSet(m, f, &PRVal{Kind: "string", T: key})
+		done(TupleV{&MarshalledMsg{M: m}, IfaceV{}})
+	})
 	reg("(*encoding/base64.Encoding).EncodeToString", func(ex *Exec, g *G, fn *ssa.Function, args []Value, done func(Value)) {
+		if mm, ok := args[1].(*MarshalledMsg); ok {
+			f := mm.M.Info.byName["last_resource_name"]
+			if f == nil {
+				ex.unsupported("modelled codec only encodes types.PageToken")
+			}
+			B := ex.B
+			key := ex.pbGet(mm.M, f).T
+			if !isOrd(key) {
+				if c, okc := concStr(key); okc {
+					k, okp := parseOrd(c)
+					if !okp {
+						ex.unsupported("page token for a key that is not an ordinal string")
+					}
+					key = B.BVC(k, OrdW)
+				} else {
+					ex.unsupported("page token for a symbolic non-ordinal key")
+				}
+			}
+			// keys are assumed < 2^59 by the harness; the tag bit marks well-formed tokens
+			tok := B.BOr(B.BAnd(key, B.BVC((uint64(1)<<59)-1, OrdW)), B.BVC(uint64(1)<<60, OrdW))
+			ex.tokenTable = append(ex.tokenTable, tokenEntry{tok: tok, mm: mm})
+			done(tok)
+			return
+		}
 		// injective function of the byte string: modelled by an ordinal string built from (a hash-free) pairing of the
 		// first bytes; collisions between distinct inputs are excluded by construction for inputs of equal length <= 7
 		sl := args[1].(SliceV)
